@@ -24,7 +24,7 @@ EXPLANATION = (
     "terminal-property change."
     " Added after seed round 3: _last_row's back-step is the width of the text written last (calc_width of the Z text); `self._resized` is tested again between the walk over canvas.content() and the write / screen_buf store; (9) ACCUM - the row counter of draw_screen advances for skipped rows too; (10) KIND - in the HTML back-end everything added to / compared with the cursor column is a calc_width() result, never a character count."
     " Round 4: the 'same canvas object as last time' shortcut of draw_screen reads screen_buf (which clear(), resize and stop reset); (11) LOOPFRESH on per-row state of the two draw_screen implementations."
-    " Round-4 triage: (12) the erase-to-end-of-line shortcut is disabled for every style flag _attrspec_to_escape() emits that is drawn on blank cells (all but bold / italics / blink). Round 5: (13) every value given to draw_screen's model of the terminal's rendition is sent on every path to its next use."
+    " Round-4 triage: (12) the erase-to-end-of-line shortcut is disabled for every style flag _attrspec_to_escape() emits that is drawn on blank cells (all but bold / italics / blink). Round 5: (13) every value given to the rendition model of draw_screen is sent on every path to its next use; (14) _last_row reads row[-2] only under a test of len(row)."
 )
 NOT_DECIDED = "The effect of the escape stream on a terminal across frame histories, the erase-to-end-of-line and insert-mode equivalences, no-scroll - these need a terminal interpreter, i.e. execution."
 ASSUMPTIONS = []
@@ -133,6 +133,8 @@ def rule_last_row_triple(ctx: Ctx) -> RuleResult:
     rets = [n for n in du.cfg.nodes if n.kind == "return" and isinstance(n.ast.value, ast.Tuple) and len(n.ast.value.elts) == 3]
     apps = nodes_where(du.cfg, lambda x: isinstance(x, ast.Call) and isinstance(x.func, ast.Attribute) and x.func.attr == "append" and x.args and isinstance(x.args[0], ast.Tuple) and len(x.args[0].elts) == 3)
     for r in rets:
+        if isinstance(r.ast.value.elts[2], ast.Constant) and r.ast.value.elts[2].value is None:
+            continue  # nothing is inserted on this path (a row of one character): no back-step either
         last = [a for a in apps if r in du.cfg.reachable([a], avoid=[b for b in apps if b is not a], labels=("n", "T", "F"))]
         ztexts = set()
         for a in last:
@@ -492,6 +494,27 @@ def rule_rendition_model(ctx: Ctx, clause: str = "C04.13") -> RuleResult:
     return rr
 
 
+def rule_last_row_neighbour(ctx: Ctx) -> RuleResult:
+    """_last_row() needs the *second to last* cell of the row when the last one is a single character (`row[-2]`,
+    `del new_row[-1]` on `row[:-1]`).  A row that consists of exactly one character - a double-width character on a
+    two-column screen - has none: these accesses have to be dominated by a test of len(row)."""
+    p = ctx.p
+    rr = RuleResult("GUARD", "C04.14", "_last_row reads the second-to-last cell of the row only under a test of len(row)", floor=1)
+    fi = p.func(f"{RAW}.Screen._last_row")
+    cfg = cfg_of(fi)
+    prm = fi.params[1]
+    uses = nodes_where(cfg, lambda x: isinstance(x, ast.Subscript) and isinstance(x.value, ast.Name) and x.value.id == prm and isinstance(x.slice, ast.UnaryOp) and isinstance(x.slice.operand, ast.Constant) and x.slice.operand.value == 2)
+    tests = [t for t in cfg.nodes if t.kind == "test" and f"len({prm})" in ast.unparse(t.ast)]
+    if not uses:
+        raise AnalysisError("_last_row: the access to row[-2] was not found")
+    for u in uses:
+        ok = bool(tests) and cfg.dominated(u, tests)
+        rr.inst(norm(u.stmt, 50), True, {"access": norm(u.stmt, 60), "length_tests": [norm(t.ast, 30) for t in tests]})
+        if not ok:
+            rr.add(finding("GUARD", fi, u.stmt, f"`{norm(u.stmt, 50)}` takes the neighbour of the last cell without a test that the row has one: a bottom row that consists of a single character (a double-width character on a two-column screen) raises IndexError out of draw_screen() and nothing is painted", construct="row[-2] without a length test"))
+    return rr
+
+
 def run(ctx: Ctx):
     r6 = c17.rule_palette_cache(ctx, "C04.6")
     r7 = c17.rule_palette_total(ctx, "C04.7")
@@ -499,12 +522,13 @@ def run(ctx: Ctx):
     r8.clause = "C04.8"
     r9 = accum.run_accum(ctx.p, "C04.9", "C04", floor=1)
     r11 = loopfresh.run_loopfresh(ctx.p, "C04.11", "C04", floor=3)
-    return [rule_triple(ctx), rule_last_row_triple(ctx), rule_cursor(ctx), rule_repaint(ctx), rule_charset_first(ctx), rule_html(ctx), rule_html_cursor_columns(ctx), r6, r7, r8, r9, r11, rule_erase_shortcut(ctx), rule_rendition_model(ctx)]
+    return [rule_triple(ctx), rule_last_row_triple(ctx), rule_cursor(ctx), rule_repaint(ctx), rule_charset_first(ctx), rule_html(ctx), rule_html_cursor_columns(ctx), r6, r7, r8, r9, r11, rule_erase_shortcut(ctx), rule_rendition_model(ctx), rule_last_row_neighbour(ctx)]
 
 
 _RW = "urwid/display/_raw_display_base.py"
 _HT = "urwid/display/html_fragment.py"
 MUTANTS = [
+    Mut("last-row-single-character", _RW, "urwid.display._raw_display_base.Screen._last_row", "            if len(row) < 2:\n                # a single character fills the whole row: there is no Y to slide in\n                return row, 0, None\n", "", "GUARD|display._raw_display_base.Screen._last_row"),
     Mut("initial-rendition-only-on-full-repaint", _RW, "urwid.display._raw_display_base.Screen.draw_screen", "        output: list[str] = [escape.HIDE_CURSOR, attr_to_escape(last_attributes)]\n", "        output: list[str] = [escape.HIDE_CURSOR]\n        if not self.screen_buf:\n            output.append(attr_to_escape(last_attributes))\n", "PAIR|display._raw_display_base.Screen.draw_screen|rendition model"),
     Mut("erase-shortcut-with-strikethrough", _RW, "urwid.display._raw_display_base.Screen.draw_screen", "(a.standout or a.underline or a.strikethrough)", "(a.standout or a.underline)", "TAB|display._raw_display_base.Screen.draw_screen|erase shortcut not disabled for strikethrough"),
     Mut("twin-erase-shortcut-any-form", _RW, "urwid.display._raw_display_base.Screen.draw_screen", "(a.standout or a.underline or a.strikethrough)", "any((a.strikethrough, a.underline, a.standout))", twin=True),
